@@ -5,6 +5,7 @@ everything else - quantities, thresholds, replenish amounts, flags, match sizes,
 new prices/quantities, timestamps, sides, time-in-force - is symbolic.  The union of the cubes of
 a tier is the whole bounded space (exhaustive case split on the op-kind sequence).
 """
+import json
 import itertools, json, uuid
 from . import sym as S
 from . import smt
@@ -230,21 +231,26 @@ def loop_iteration(c, k):
     extra = {}
     start = {'q': q, 'remaining': r, 'result': result, 'set_aside': None}
     if 'set_aside' in fn.debug_names:
-        so = sym_order(L, inp, 'sa%d' % k, oid=const_order_id(SET_ASIDE_ID), price=h.P)
-        nsa = S.ZExt(inp.var('sa%d.n' % k, 1), 64)
-        sv = OrderView(L, so)
-        c.domain.append(S.Not(S.AddOvf(sv.displayed, sv.hidden)))
-        has = S.Eq(nsa, S.bv(1, 64))
-        c.supplied.append(S.Ite(has, S.Add(sv.displayed, sv.hidden), S.bv(0, 64)))
-        extra['set_aside'] = VecV([so], nsa)
-        start['set_aside'] = extra['set_aside']
-        # the level counters include the set-aside orders (they are still owned by the level)
+        nmax = c.cube.get('set_aside_max', 1)
+        sos = []
+        nsa = S.ZExt(inp.var('sa%d.n' % k, 2), 64)
+        c.domain.append(S.Ule(nsa, S.bv(nmax, 64)))
         lv = h.st.mem[h.root]
-        for fld, add in (('visible_quantity', S.Ite(has, sv.displayed, S.bv(0, 64))),
-                         ('hidden_quantity', S.Ite(has, sv.hidden, S.bv(0, 64))), ('order_count', nsa)):
-            i = L.field_index('PriceLevel', fld)
-            lv = store_path(lv, (i,), S.Add(lv[i], add))
+        for j in range(nmax):
+            so = sym_order(L, inp, 'sa%d_%d' % (k, j), oid=const_order_id(SET_ASIDE_ID + j), price=h.P)
+            sv = OrderView(L, so)
+            c.domain.append(S.Not(S.AddOvf(sv.displayed, sv.hidden)))
+            has = S.Ult(S.bv(j, 64), nsa)
+            c.supplied.append(S.Ite(has, S.Add(sv.displayed, sv.hidden), S.bv(0, 64)))
+            sos.append(so)
+            # the level counters include the set-aside orders (they are still owned by the level)
+            for fld, add in (('visible_quantity', S.Ite(has, sv.displayed, S.bv(0, 64))),
+                             ('hidden_quantity', S.Ite(has, sv.hidden, S.bv(0, 64))), ('order_count', S.B2BV(has, 64))):
+                i = L.field_index('PriceLevel', fld)
+                lv = store_path(lv, (i,), S.Add(lv[i], add))
         h.st.mem[h.root] = lv
+        extra['set_aside'] = VecV(sos, nsa)
+        start['set_aside'] = extra['set_aside']
     rec = h.match_iteration(fn, block, q, r, result, extra)
     rec['start'].update(start)
     return {'q': q, 'rec': rec, 'iteration': True}
@@ -534,6 +540,16 @@ def solve_cube(cube, prop_fn, solver='z3', timeout=300, cross=None):
     if cross:
         res2 = smt.run_batch(assumptions, goals, solver=cross, timeout=timeout, label=cube['seq'] + '/cross',
                              want_model=False)
+    # a satisfiable obligation may name a preferred region for its model (one whose consequence is observable on the
+    # real crate); the verdict is that of the plain goal, only the model shown / replayed changes
+    pref = [i for i, (o, (v, _)) in enumerate(zip(obls, res)) if v == 'sat' and o.get('prefer') is not None]
+    if pref:
+        res = list(res)
+        res3 = smt.run_batch(assumptions, [S.And(obls[i]['goal'], obls[i]['prefer']) for i in pref], solver=solver,
+                             timeout=timeout, label=cube['seq'] + '/prefer', model_vars=c.inp.vars + c.models.clock_vars)
+        for i, (v, m) in zip(pref, res3):
+            if v == 'sat':
+                res[i] = (v, m)
     for i, (o, (verdict, model)) in enumerate(zip(obls, res)):
         r = {'name': o['name'], 'kind': o['kind'], 'verdict': verdict, 'cube': cube['seq'],
              'required': o.get('required', True), 'known': o.get('known')}
@@ -564,6 +580,15 @@ def solve_cube(cube, prop_fn, solver='z3', timeout=300, cross=None):
                     if 'drain' in o:
                         r['drain'] = o['drain'](c, model)
                         if r['drain'].get('within_call') is None:
+                            if r['drain'].get('amend'):
+                                # second variant: resting orders that display nothing first get a display of 1 by a
+                                # same-price amendment (keeps places), which makes their queue positions observable
+                                import copy
+                                sa = copy.deepcopy(r['script'])
+                                for x in r['drain']['amend']:
+                                    sa['ops'].append({'op': 'update', 'kind': 'UpdateQuantity', 'id': x, 'quantity': 1})
+                                sa['ops'].append({'op': 'match', 'quantity': (1 << 64) - 1, 'taker': uuid_str(TAKER_ID)})
+                                r['script_amend'] = sa
                             r['script']['ops'].append({'op': 'match', 'quantity': (1 << 64) - 1, 'taker': uuid_str(TAKER_ID)})
                 except StopIteration:
                     r['desc'] = 'state inside a call (not replayable)'
@@ -677,21 +702,58 @@ def run_hist(run, prop_fn, cubes, timeout=300, cross=None, native=True, known_ke
         if r.get('drain') and not diffs:
             # white-box (queue position) violation: confirm through its observable consequence, the maker order
             # of a draining match appended to the script
-            res = nat.get('results') or []
-            if r['drain'].get('within_call') is not None:
+            dr = r['drain']
+
+            def first_trades(nat_, kk=None, skip=0):
+                res = nat_.get('results') or []
+                last = (res[kk] if len(res) > kk else {}) if kk is not None else (res[-1] if res else {})
+                return [t['maker'] for t in (last.get('match') or {}).get('transactions', [])][skip:]
+            if dr.get('within_call') is not None:
                 # violation at a loop cut inside a call: its observable consequence is the NEXT maker of that call
-                kk = r['script'].get('setup_ops', 0) + r['drain']['within_call']
-                last = res[kk] if len(res) > kk else {}
-                makers = [t['maker'] for t in (last.get('match') or {}).get('transactions', [])][r['drain'].get('skip', 0):]
+                makers = first_trades(nat, r['script'].get('setup_ops', 0) + dr['within_call'], dr.get('skip', 0))
+                exp = dr['expected_first']
+                payload['drain'] = {'expected_first_maker': exp, 'native_maker_sequence': makers}
+                if (makers[0] if makers else None) == exp:
+                    diffs = ['queue-position violation is not observable: the call trades %s next as the arrival-order model '
+                             'expects' % exp]
             else:
-                last = res[-1] if res else {}
-                makers = [t['maker'] for t in (last.get('match') or {}).get('transactions', [])]
-            exp = r['drain']['expected_first']
-            first = makers[0] if makers else None
-            payload['drain'] = {'expected_first_maker': exp, 'native_maker_sequence': makers}
-            if first == exp:
-                diffs = ['queue-position violation is not observable: the draining match trades %s first as the '
-                         'arrival-order model expects' % exp]
+                variants = [('plain', r['script'], nat)]
+                if r.get('script_amend'):
+                    variants.append(('amended', r['script_amend'], None))
+                observed = None
+                tried = []
+                for vname, sc, nt in variants:
+                    if nt is None:
+                        nt = run_native(sc)
+                        if compare_native(sc, r['pred'], nt):
+                            continue
+                    makers = first_trades(nt)
+                    seq = []
+                    for m in makers:
+                        if m not in seq:
+                            seq.append(m)
+                    exp_o = dr.get('expected_order')
+                    if vname == 'plain' and exp_o is not None:
+                        exp_o = [m for m in exp_o if m not in (dr.get('amend') or [])]
+                    mismatch = False
+                    if exp_o is not None:
+                        # only makers that the drain actually trades are observable
+                        seq_f = [m for m in seq if m in exp_o]
+                        mismatch = seq_f != [m for m in exp_o if m in seq_f]
+                    if not dr.get('subset') and vname == 'plain' and makers and dr.get('expected_first') is not None \
+                            and makers[0] != dr['expected_first']:
+                        mismatch = True
+                    tried.append({'variant': vname, 'expected_order': exp_o, 'native_first_trades': seq})
+                    if mismatch:
+                        observed = (vname, sc, nt)
+                        break
+                payload['drain'] = {'expected_first_maker': dr.get('expected_first'), 'amended_to_display': dr.get('amend'),
+                                    'variants': tried}
+                if observed is None:
+                    diffs = ['queue-position violation is not observable: the draining match trades the makers in the order the '
+                             'arrival-order model expects (%s)' % json.dumps(tried)[:300]]
+                else:
+                    payload['script'], payload['native'] = observed[1], observed[2]
         if r.get('expect_hang') is not None and not diffs:
             res = nat.get('results') or []
             kk = r['script'].get('setup_ops', 0) + r['expect_hang']
